@@ -1,6 +1,7 @@
 //! Engine: case context, property trait, panic capture, drivers (replay corpus,
 //! enumerators, proptest), evidence and replay files, known findings.
 
+pub mod fuzz;
 pub mod runner;
 pub mod src;
 
